@@ -41,6 +41,11 @@ func HFn(f func(int) int) string { return "" }
 func HIntP(p *int) string { return "" }
 func HSumIs(want int, xs ...int) bool { return false }
 func HCountIs(n int, xs ...interface{}) bool { return false }
+func HPair(x int) (int, string) { return 0, "" }
+func HTriple(x int) (int, int, int) { return 0, 0, 0 }
+func HDivMod(a, b int) (int, int, error) { return 0, 0, nil }
+func HDouble(x int) int { return 0 }
+func HStruct(x int) (struct{ A, B int }, bool) { return struct{ A, B int }{}, false }
 `
 
 type mapImporter struct {
